@@ -141,11 +141,41 @@ def modname(rel):
     return "BobV." + rel[:-2].replace("/", ".")
 
 
+class coqc_slot:
+    """machine-wide limit on concurrently running coqc processes (several checks
+    may run at the same time; each shards its cases over many coqc calls)"""
+    N = int(os.environ.get("BOBV_COQC_SLOTS", "12"))
+    DIR = "/var/tmp/bobv-coqc-slots"
+
+    def __enter__(self):
+        os.makedirs(self.DIR, exist_ok=True)
+        start = (os.getpid() + int(time.time() * 1000)) % self.N
+        while True:
+            for k in range(self.N):
+                f = open(os.path.join(self.DIR, "slot-%d" % ((start + k) % self.N)), "w")
+                try:
+                    fcntl.flock(f, fcntl.LOCK_EX | fcntl.LOCK_NB)
+                    self.f = f
+                    return self
+                except OSError:
+                    f.close()
+            time.sleep(0.2)
+
+    def __exit__(self, *a):
+        fcntl.flock(self.f, fcntl.LOCK_UN)
+        self.f.close()
+
+
 def coqc_run(name, text, timeout=600):
     os.makedirs(RUN, exist_ok=True)
     p = os.path.join(RUN, name + ".v")
     with open(p, "w") as f:
         f.write(text)
+    with coqc_slot():
+        return _coqc_run(name, p, timeout)
+
+
+def _coqc_run(name, p, timeout):
     try:
         r = subprocess.run(["coqc", "-Q", COQ, "BobV", "-w", "-all", p], cwd=RUN, stdout=subprocess.PIPE,
                            stderr=subprocess.STDOUT, timeout=timeout, text=True)
